@@ -22,6 +22,7 @@ EXPLANATION = (
     "C03.11 in free and dispose_chunk every path after `self.top = p` tests p == dv and clears dv/dvsize when it holds (a chunk merged into top is retired as designated victim). "
     "C03.12 insert_large_chunk clears both child pointers of the inserted chunk on every path (also for a chunk that only joins a same-size ring). "
     "C03.13 a chunk found by its address is unlinked only after it was compared with dv (and top, for a following chunk) and found free; C03.14 the two directions of a chunk link (next/prev, child/parent) are written together. "
+    "C03.15 every split / no-split decision compares the remainder with MIN_CHUNK_SIZE. "
     "NOT decided: alignment, disjointness and intactness of live blocks - invariants of the bin/tree/segment shape over call histories (the module's own check_malloc_state is a run-time checker); no structural rule in reach establishes them.")
 ASSUMPTIONS = ["dlmalloc's heap-shape invariants hold (not established here)", "MUNMAP returns 0 or -errno"]
 
@@ -451,6 +452,44 @@ def run_one(ck, prog):
             ck.ob("C03.14", f"{p2.split('::')[-1]}|{owner[-40:]}.{fld}={val[-40:]}|inverse-link-written", ok, fn=p2, site=span_str(st["sp"]),
                   detail=f"`{owner}.{fld} = {val}` needs `{val}.{inv} = {owner}` in the same operation; a chunk whose back pointer still names a removed chunk makes a later unlink write into a live block")
     ck.floor("C03.14", "forward links written", n_links, 12)
+
+    # ---- C03.15 a remainder becomes a chunk of its own only when it can hold a chunk: every split / no-split decision compares the
+    # remainder (`have - need`) with MIN_CHUNK_SIZE - a smaller threshold creates a free chunk whose link words lie in the next chunk's header
+    mcs = prog.const(DL + "MIN_CHUNK_SIZE")
+    n_split = 0
+    for p15, f15 in prog.fns.items():
+        if not p15.startswith(DL) or p15.split("::")[-1].startswith("check_"):
+            continue
+        c15 = prog.ctx(f15)
+        seen15 = set()
+        for sb in c15.cfg.live_blocks():
+            if c15.cfg.term(sb)["k"] != "switch":
+                continue
+            for e in c15.cfg.succ[sb]:
+                for f in c15.edge_facts(e):
+                    if f[0] != "cmp" or f[1] not in ("Lt", "Ge", "Le", "Gt"):
+                        continue
+                    for x, y in ((f[2], f[3]), (f[3], f[2])):
+                        c = fold(y)
+                        if c is None or c > 4096:
+                            continue
+                        xs = strip_casts(x)
+                        if isinstance(xs, tuple) and xs[0] == "var":
+                            ds = [strip_casts(d) for d in c15.prov.expand(xs)]
+                            xs = ds[0] if len(ds) == 1 else xs
+                        # a remainder: something minus the padded request
+                        is_rem = isinstance(xs, tuple) and xs[0] == "bin" and xs[1] in ("Sub", "SubWithOverflow") and fold(xs[3]) is None and \
+                            mentions(xs[3], c15.prov, lambda z: (z[0] == "param" and str(z[2]) in ("nb", "size")) or (z[0] == "var" and str(z[2]) == "nb") or (z[0] == "call" and (z[1] or "").endswith(("request2size", "pad_request"))))
+                        if not is_rem or (sb, canon(xs)) in seen15:
+                            continue
+                        seen15.add((sb, canon(xs)))
+                        n_split += 1
+                        # the smallest remainder that is split off, whichever way the test is written
+                        left = x is f[2]
+                        thr = c if (left and f[1] in ("Lt", "Ge")) or (not left and f[1] in ("Gt", "Le")) else c + 1
+                        ck.ob("C03.15", f"{p15.split('::')[-1]}|split-threshold-is-min-chunk-size|{canon(xs)[:60]}", isinstance(mcs, int) and thr >= mcs, fn=p15, site=c15.site(sb),
+                              detail=f"a remainder {show(xs)[:80]} of {thr} bytes already counts as a chunk of its own; that is allowed only from MIN_CHUNK_SIZE ({mcs}) bytes on")
+    ck.floor("C03.15", "split decisions", n_split, 5)
 
     # ---- C03.8 a failed in-place resize leaves the heap untouched ------------------------------------------------------------------------------
     trc = prog.fns.get(DL + "try_realloc_chunk")
